@@ -204,10 +204,10 @@ theorem C01_spec_aligned (a : SAvp) : a.encode.length % 4 = 0 := by
     cases vendor <;> simp [SAvp.encode, u32be, u24be, padTo4] <;> omega
 
 /-! non-vacuity: a concrete history with a vendor AVP and a group is inside the quantifier -/
-example : OpsOk ⟨fun _ _ => false, 32⟩ {}
+example : OpsOk ⟨fun _ _ => false, 32, {}⟩ {}
     [.new 272 4 0x80 1 2, .val (.unsigned32 5), .addAvp 7 (some 9) 0x40, .grpNew, .val (.utf8 [0x61]),
      .grpAddAvp 3 none 0, .addAvp 8 none 0] := by
   simp [OpsOk, OpOk, MState.step, Value.Good, Value.WF, Value.Cons, Value.leafWF, utf8Valid, hdrLen, Value.len,
-    lenList, Avp.padded, Avp.new, Avp.len, Avp.padding, pad, cmdKnown, appKnown]
+    lenList, Avp.padded, Avp.new, Avp.len, Avp.padding, pad, Tables.cmdKnown, Tables.appKnown]
 
 end Dia
